@@ -146,7 +146,7 @@ def lane(ctx):
             st["discharged"] += 1
     elif verdict == "sat":
         known = {"collect": "C07-save-file-closed-after-lock", "process": "C07-part-files-closed-after-processed-lock",
-                 "merge": "C07-merge-removes-parts-before-merged-file-is-durable"}[stage]
+                 "merge": "C07-merge-removes-parts-before-merged-file-is-durable", "sample": "C07-sample-lock-before-info"}[stage]
         if known in ctx["active"]:
             st["excluded"] = {known: 1}
             st["known_hits"] = {known: {"crash_after_event": k, "detail": detail}}
@@ -176,7 +176,7 @@ def replay_custom(inst, case):
 
 def instances(tier, seed):
     out = []
-    for stage, fn_name in (("collect", "collect_reads_in_parallel"), ("process", "construct_models_in_parallel"), ("merge", "DatasetProcessor.merge_assignments")):
+    for stage, fn_name in (("collect", "collect_reads_in_parallel"), ("process", "construct_models_in_parallel"), ("merge", "DatasetProcessor.merge_assignments"), ("sample", "DatasetProcessor.collect_reads")):
         def run(ctx, stage=stage):
             ctx = dict(ctx)
             ctx["tier"] = tier
